@@ -126,10 +126,13 @@ Lemma sw_statement full b text E k p t :
 Proof.
   intros Hb (d & z & Et & Hd) Hk Hf Hp (q & Ep). subst text p. cbn in Hp.
   assert (Hx : sspre (b ++ (d :: z) ++ E ++ k) = (d :: z) ++ E ++ k) by (cbn [app]; apply sspre_blanks_stop; assumption).
+  assert (H237 : nth_error GS 237 = Some (mkNode (KMany true) [238] true WSs [ssw_c] true [])) by slk.
+  assert (H238 : nth_error GS 238 = Some (mkNode KSuppress [239] true WSs [ssw_c] true [])) by slk.
+  assert (H239 : exists cp, nth_error GS 239 = Some (mkNode KLineEnd [] true WSs [ssw_c] cp [])) by (exists true; slk).
   assert (Heol : evals GS full 237 true (At q) (POk (after WSs k) [])).
   { assert (H1 : evals GS full 237 true (At (sspre (E ++ k))) (POk (after WSs k) [])).
-    { apply (evals_spre_inv GS full ssw_c WSs ssw_comment_ok 237 _ (E ++ k) _ ltac:(slk)); [repeat split|reflexivity|].
-      apply (evals_end GS ssw_c 238 239 WSs ssw_comment_ok ltac:(slk) (ex_intro _ true ltac:(slk)) full 237 true E k ltac:(slk) Hk). }
+    { apply (evals_spre_inv GS full ssw_c WSs ssw_comment_ok 237 _ (E ++ k) _ H237); [repeat split|reflexivity|].
+      apply (evals_end GS ssw_c 238 239 WSs ssw_comment_ok H238 H239 full 237 true E k H237 Hk). }
     destruct H1 as [a Ha].
     destruct (pre_to_std GS full ssw_c WSs (mkNode (KMany true) [238] true WSs [ssw_c] true []) q _ ssw_comment_ok
                 ltac:(repeat split) eq_refl) as [p1 Hp1].
@@ -137,8 +140,7 @@ Proof.
                 ltac:(repeat split) eq_refl) as [p2 Hp2].
     exists (S (Nat.max a (Nat.max p1 p2))). intros f Hle. destruct f as [|f]; [lia|].
     rewrite <- (Ha (S f)) by lia. rewrite !parse_S.
-    replace (nth_error GS 237) with (Some (mkNode (KMany true) [238] true WSs [ssw_c] true [])) by (symmetry; slk).
-    cbn [andb ncallpre]. rewrite (Hp1 f f), (Hp2 f f) by lia. rewrite Hp, sspre_idem. reflexivity. }
+    rewrite H237. cbn [andb ncallpre]. rewrite (Hp1 f f), (Hp2 f f) by lia. rewrite Hp, sspre_idem. reflexivity. }
   eapply evals_eq.
   - eapply evals_node_ok; [slk|apply (pre_premise GS full ssw_c WSs ssw_comment_ok); repeat split|].
     unfold pre_pos. cbn [andb ncallpre]. rewrite Hx.
@@ -147,5 +149,5 @@ Proof.
       eapply impls_wrap; [reflexivity|reflexivity|].
       eapply evals_node_ok; [slk|cbn; reflexivity|]. apply impls_first; [reflexivity|exact Hf].
     + eapply seqs_cons; [exact Heol|apply seqs_nil].
-  - cbn. rewrite app_nil_r. reflexivity.
+  - cbn. rewrite ?app_nil_r. reflexivity.
 Qed.
